@@ -17,7 +17,7 @@ func init() {
 			"the index held `a` and `a/x` together and the committed tree had a blob and a tree under one name (fixed bd49cc3); " +
 			"(missing-covers-not-a-directory) the test that lets Worktree.Remove pass over a file that is not there accepts ENOTDIR beside not-exist (fixed 4d18a92); " +
 			"(remove-cleans-empty-parents) after Worktree.Remove has removed a single file, the success return is reached only through a call that removes emptied leading directories, as for RemoveGlob and directories (fixed 4e1855c); (move-carries-entry) Worktree.Move makes the destination entry of the source's entry and its static closure does not reach the stat refresh doUpdateFileToIndex — " +
-			"refreshing paired the old blob with stat data matching the new content, so a file modified before the move showed as unmodified (fixed e6be7cb); (tree-builder-component-boundaries) the commit's tree builder splits entry names at \"/\" and tests no variable string prefix that does not end in \"/\". " +
+			"refreshing paired the old blob with stat data matching the new content, so a file modified before the move showed as unmodified (fixed e6be7cb); (tree-builder-component-boundaries) the commit's tree builder splits entry names at \"/\" and tests no variable string prefix that does not end in \"/\"; (clean-descends-into-every-directory) doClean passes an entry over only for .git or, for directories, without the Dir option, and removes the visited directory when it is empty. " +
 			"Not decided: the entries and trees produced (values), glob semantics, Move with a modified source, Clean's treatment of files below a tracked file turned directory (git keeps them as 'killed' files), modes and stat data.",
 		Assumptions: []string{},
 		Run:         runC28,
@@ -150,6 +150,7 @@ func runC28(c *Ctx) {
 
 	checkMoveCarriesEntry(c, "move-carries-entry")
 	checkTreeBuilderPrefixes(c, "tree-builder-component-boundaries")
+	checkCleanDescendsEverywhere(c, "clean-descends-into-every-directory")
 
 	// ---- remove-cleans-empty-parents
 	const r4 = "remove-cleans-empty-parents"
